@@ -285,12 +285,22 @@ func (u *Universe) Pick(list [][]byte) []byte { return list[u.R.Intn(len(list))]
 
 func (u *Universe) ShardOf(addr []byte) uint32 { return world.ComputeShard(u.W.NumShards, addr) }
 
+// SetupFailures collects setup steps that did not succeed. A failed setup step does not stop
+// the batch (the monitors judge what actually happened, and one failing step must not hide the
+// violations of every other case in the batch); the run is reported inconclusive by the parent
+// unless a violation was found.
+var SetupFailures []string
+
 func Must(l *node.Leg, what string) {
 	if l == nil || !l.OK {
 		err := "nil leg"
 		if l != nil {
 			err = fmt.Sprint(l.Err, " ", l.Panic)
 		}
-		panic(fmt.Sprintf("harness setup step failed: %s: %s", what, err))
+		if len(SetupFailures) < 50 {
+			SetupFailures = append(SetupFailures, fmt.Sprintf("%s: %s", what, err))
+		} else {
+			SetupFailures = append(SetupFailures[:49], "…")
+		}
 	}
 }
